@@ -105,7 +105,10 @@ class ResetOperation:
         )
 
     def replace_params(self, new_params: Tuple[Parameter, ...]) -> "ResetOperation":
-        return replace(self, params=new_params)
+        # dataclasses.replace would call __init__(params=...), which takes a qubit index.
+        new_operation = ResetOperation(self.qubit_indices[0])
+        new_operation.params = new_params
+        return new_operation
 
     def apply(self, amplitude_vector: ParameterizedVector) -> ParameterizedVector:
         raise RuntimeError(
